@@ -32,7 +32,7 @@ RULE = ('tables: enumerated completely on every run (16 Clifford pairs x 2 spell
         'sign / a non-zero matrix was compared or a rejection was required, distinct = the entry itself. '
         'K_n and the 30 other special functions are SAMPLED: orders 0..6 on each point of a log grid of arguments in (0.05, 20) (200 quick / 2000 thorough, '
         'jittered by the seed), other functions on 20 (quick) / 120 (thorough) points per parameter choice inside the domain; argument observables on one chain, '
-        'two replicas, chain + covariance input, covariance only; non-trivial when the reference derivative is non-zero; distinct = (function, parameters, argument digest)')
+        'two replicas, chain + covariance input, covariance only; non-trivial when the reference derivative is non-zero; distinct = (function, parameters, argument digest). Second hardening: logsumexp with 12 / 40 / 120 arguments, with a spectator argument of weight exactly 0 in the first / middle / last slot and with arguments near +-800; function objects re-used across cases and fresh ones with equal code; arguments compared with their digest before the call, the same argument objects applied a second time; all tables evaluated once more at the end of every worker process; counters judged:<mechanism> give the number of evaluations of every judgement')
 ASSUMPTIONS = ['mpmath besselk/besselj/.../gammainc/betainc at 40 digits are correct; derivatives by a 50-digit symmetric difference quotient validated against mpmath.diff; K_n from the upward recurrence, cross-checked against direct besselk and (closed-form vs numerical) derivative on every 16th argument',
                'special-function values in double precision (scipy) are compared at rtol 1e-11 (1e-9 for inverse / incomplete functions), derivatives at 1e-10 / 1e-8 of the fluctuation scale',
                'derivatives are only claimed with respect to the arguments autograd differentiates (not the order of jn/yn/iv/ive/polygamma, not a of gammainc/betainc)',
@@ -92,7 +92,9 @@ SPEC = {
     'erfcinv': ([()], [(0.05, 1.95)], 1e-9, 1e-8),
     'logit': ([()], [(0.02, 0.98)], 1e-11, 1e-10),
     'expit': ([()], [(-8.0, 8.0)], 1e-11, 1e-10),
-    'logsumexp': ([()], [(-3.0, 3.0), (-3.0, 3.0), (-3.0, 3.0)], 1e-11, 1e-10),
+    # parameter choices of logsumexp: number of arguments (more than 10 / 100 members), or a spectator argument so far below the
+    # others that its weight exp(x - result) is exactly 0 in double precision, in the first or the last slot
+    'logsumexp': ([(), ('args', 12), ('args', 40), ('args', 120), ('spectator', 'first'), ('spectator', 'last'), ('spectator', 'middle'), ('large', 800.0), ('large', -800.0)], [(-3.0, 3.0), (-3.0, 3.0), (-3.0, 3.0)], 1e-11, 1e-10),
 }
 KN_ORDERS = list(range(7))
 VARIANTS = ['one-chain', 'two-replicas', 'chain+cov', 'cov-only']
@@ -107,10 +109,36 @@ def special_cases(tier):
     return [(name, c, j) for name in sorted(SPEC) for c in SPEC[name][0] for j in range(g)]
 
 
+def norm_mech(m):
+    """judgement name without the table entry / function it was applied to"""
+    import re
+    m = re.sub(r'^special:[A-Za-z0-9_]+:', 'special:*:', m)
+    m = re.sub(r'^Grid_gamma:[A-Za-z0-9]+:', 'Grid_gamma:*:', m)
+    m = re.sub(r'-(x|y|z|t|xx|xy|xz|xt|yx|yy|yz|yt|zx|zy|zz|zt|tx|ty|tz|tt)$', '-*', m)
+    m = re.sub(r'(shape-or-dtype-|differs-from-|constant-changed-by-a-call:)[A-Za-z0-9]+$', r'\1*', m)
+    return m
+
+
+def jd(ctx, tag, n=1):
+    ctx.count('judged:' + norm_mech(tag), n)
+
+
+def count_judgements(ctx):
+    """evidence: counter 'judged:<mechanism>' = how often each judgement was evaluated (hardening item 13)"""
+    for meth in ('close', 'equal', 'require'):
+        orig = getattr(ctx, meth)
+
+        def wrapped(*a, _o=orig, _i=(1 if meth == 'require' else 2), **k):
+            jd(ctx, k['mechanism'] if 'mechanism' in k else a[_i])
+            return _o(*a, **k)
+        setattr(ctx, meth, wrapped)
+
+
 def setup(ctx):
     global PE
     import pyerrors as pe
     PE = pe
+    count_judgements(ctx)
     missing = sorted(set(pe.special.__all__) - set(SPEC) - {'kn'})
     if missing:
         # a newly re-exported function that this check has no reference for: not silently ignored
@@ -136,6 +164,7 @@ def check_constants(ctx):
     for n in CONSTANTS:
         ctx.ev()
         ctx.count('constant_table_checks')
+        jd(ctx, 'table:constant-changed-by-a-call:' + n)
         now = getattr(PE.dirac, n)
         if not (np.shape(now) == CONST0[n].shape and np.array_equal(now, CONST0[n])):
             ctx.violation('table:constant-changed-by-a-call:' + n, {'now': repr(np.asarray(now).tolist()), 'at_import': repr(CONST0[n].tolist())})
@@ -152,6 +181,7 @@ def check_held(ctx):
     for mech, res, dg in HELD:
         ctx.ev()
         ctx.count('held_results_rechecked')
+        jd(ctx, mech + ':result-changed-by-later-calls')
         if obs_digest(res) != dg:
             ctx.violation(mech + ':result-changed-by-later-calls', {'value_now': repr(res.value)})
 
@@ -159,6 +189,16 @@ def check_held(ctx):
 def teardown(ctx):
     check_constants(ctx)
     check_held(ctx)
+    # the complete tables once more, after everything else this process has called (late evaluation, not sampled)
+    ctx.case = ('late-tables', 0)
+    for row in ALGEBRA:
+        run_algebra(ctx, row)
+    for row in TAGS:
+        run_tag(ctx, row)
+    for t in EPS3 + EPS_OUT:
+        run_eps(ctx, t, 'eps_late_tuples')
+    ctx.count('late_table_passes')
+    ctx.case = None
 
 
 def plan(tier):
@@ -279,6 +319,7 @@ def run_tag(ctx, row):
         if exp is not None:
             raise AssertionError('reference table knows the supposedly unknown tag %r' % (tag,))
         ctx.count('grid_tags_rejected')
+        jd(ctx, 'Grid_gamma:unknown-tag-accepted/accidental-exception')
         ctx.ev()
         try:
             got = PE.dirac.Grid_gamma(tag)
@@ -336,6 +377,8 @@ def run_eps(ctx, t, counter):
     for form, args in index_forms(t):
         ctx.ev()
         ctx.cell('eps%d' % rank, 'form', form)
+        jd(ctx, 'epsilon%d:%s(%s)' % (rank, 'tuple-outside-domain-accepted' if what == 'raise' else 'wrong-sign/tuple-inside-domain-rejected',
+                                     'unsigned' if form in UNSIGNED_FORMS else ('python-int' if form == 'int' else 'other-forms')))
         if what == 'raise':
             ctx.cell('eps%d' % rank, 'rejected')
             try:
@@ -374,11 +417,12 @@ def run_eps(ctx, t, counter):
 
 
 # ------------------------------------------------------------------------------------------
-def make_arg(rng, x, width, variant, ens):
+def make_arg(rng, x, width, variant, ens, cov=None):
     """Observable with central value close to x (spread `width`)."""
     pe = PE
+    cov = cov or 'cv_' + ens          # one covariance name per argument slot (a name stands for one covariance matrix)
     if variant == 'cov-only':
-        return pe.cov_Obs(float(x), float(width) ** 2, 'cv_' + ens)
+        return pe.cov_Obs(float(x), float(width) ** 2, cov)
     names = [ens + '|r1', ens + '|r2'] if variant == 'two-replicas' else [ens if rng.random() < 0.5 else ens + '|r1']
     samples, idls = [], []
     for n in names:
@@ -392,7 +436,7 @@ def make_arg(rng, x, width, variant, ens):
         idls.append(idl)
     o = pe.Obs(samples, names, idl=idls)
     if variant == 'chain+cov':
-        o = o + pe.cov_Obs(0.0, float(width) ** 2, 'cv_' + ens)
+        o = o + pe.cov_Obs(0.0, float(width) ** 2, cov)
     return o
 
 
@@ -402,16 +446,18 @@ def build_args(rng, xs, doms, variant, wf=2e-3, same_object=False):
     args = []
     for k, (x, (lo, hi)) in enumerate(zip(xs, doms)):
         width = wf * min(x - lo, hi - x, max(abs(x), 0.05))
-        args.append(make_arg(rng, x, width, variant, ['A', 'AB', 'A1'][k % 3]))
+        args.append(make_arg(rng, x, width, variant, ['A', 'AB', 'A1'][k % 3], cov='cv_%s_%d' % (['A', 'AB', 'A1'][k % 3], k)))
     if same_object:
         args = [args[0]] * len(args)
     ins = [snap(a) for a in args]
     return args, ins, [s['value'] for s in ins]
 
 
-def apply_and_judge(ctx, name, consts, args, ins, vals, vtol, dtol, libcall, mech, variant, valfn=None, gradfn=None):
+def apply_and_judge(ctx, name, consts, args, ins, vals, vtol, dtol, libcall, mech, variant, valfn=None, gradfn=None, zero_gradient_slots=(), again=False):
     """apply the library function to the observables and compare with the dense propagation model fed with the
     mpmath value / derivative.  Returns (result, reference, gradient) or (None, None, None)."""
+    uniq = list({id(a): a for a in args}.values())
+    before = [obs_digest(a) for a in uniq]
     try:
         res = PE.derived_observable(libcall, args)
     except Exception as e:
@@ -423,6 +469,13 @@ def apply_and_judge(ctx, name, consts, args, ins, vals, vtol, dtol, libcall, mec
         # scipy returns 0-d arrays for some functions (polygamma); the library then returns a 0-d array holding the observable
         res = res.ravel()[0]
         ctx.count('result_wrapped_in_0d_array')
+    # the observables the caller holds are what they were; the same objects applied again give the same result
+    ctx.equal([obs_digest(a) for a in uniq], before, mech + ':argument-modified-by-the-application', 'arguments after the call')
+    if again:
+        res2 = PE.derived_observable(libcall, args)
+        if isinstance(res2, np.ndarray) and res2.size == 1:
+            res2 = res2.ravel()[0]
+        ctx.equal(obs_digest(res2), obs_digest(res), mech + ':second-application-to-the-same-objects-differs', 'same argument objects, second call')
     memo = {}
 
     def f(v):
@@ -432,7 +485,7 @@ def apply_and_judge(ctx, name, consts, args, ins, vals, vtol, dtol, libcall, mec
         return memo[key]
     grads = [float(g) for g in (specfun.partials(name, consts, vals) if gradfn is None else gradfn(vals))]
     fval = f(vals)
-    if name != 'gammasgn' and any(abs(g) < 1e-5 * abs(fval) / max(abs(v), 1.0) for g, v in zip(grads, vals)):
+    if name != 'gammasgn' and any(abs(g) < 1e-5 * abs(fval) / max(abs(v), 1.0) for k, (g, v) in enumerate(zip(grads, vals)) if k not in zero_gradient_slots):
         # an extremum of f within rounding: the double-precision derivative has no relative accuracy there (borderline, not judged)
         ctx.count('borderline_derivative_within_rounding_of_zero')
         return None, None, None
@@ -449,6 +502,9 @@ def apply_and_judge(ctx, name, consts, args, ins, vals, vtol, dtol, libcall, mec
     if any(g != 0.0 for g in grads):
         ctx.nontrivial.add(digest(name, consts, [repr(v) for v in vals], variant))
     return res, ref, grads
+
+
+KN_FUNCS = {}
 
 
 def run_kn(ctx, idx, rng):
@@ -471,9 +527,17 @@ def run_kn(ctx, idx, rng):
         return tabs[t]
     for n in KN_ORDERS:
         order = [n, float(n), np.int64(n)][(idx + n) % 3]
-        res, ref, grads = apply_and_judge(ctx, 'kn', (n,), args, ins, vals, 1e-11, 1e-10, lambda v, **kw: sp.kn(order, v[0]), 'kn', variant,
+        key = (n, type(order).__name__)
+        if idx % 2 == 0 and key in KN_FUNCS:
+            fn = KN_FUNCS[key]                       # the function object of an earlier case, applied to other observables
+            ctx.count('function_object_reused')
+        else:
+            def fn(v, order=order, **kw):
+                return sp.kn(order, v[0])
+            KN_FUNCS.setdefault(key, fn)
+        res, ref, grads = apply_and_judge(ctx, 'kn', (n,), args, ins, vals, 1e-11, 1e-10, fn, 'kn', variant,
                                           valfn=lambda v, n=n: table(v[0])[n],
-                                          gradfn=lambda vv, n=n: [specfun.kn_derivative_from_table(table(vv[0]), n)])
+                                          gradfn=lambda vv, n=n: [specfun.kn_derivative_from_table(table(vv[0]), n)], again=(n == idx % 7))
         ctx.count('kn_applications')
         if res is None:
             continue
@@ -501,10 +565,24 @@ def run_kn(ctx, idx, rng):
         ctx.count('kn_reference_self_checks')
 
 
+FUNCS = {}
+
+
 def run_special(ctx, idx, rng):
     name, consts, j = special_cases(ctx.tier)[idx]
     g = grid_sizes(ctx.tier)[1]
     pars, doms, vtol, dtol = SPEC[name]
+    spectator = None
+    if name == 'logsumexp' and consts:
+        if consts[0] == 'args':
+            doms = [doms[0]] * consts[1]
+        elif consts[0] == 'large':
+            # arguments whose exponentials over- or underflow: the function exists to handle exactly these
+            doms = [(consts[1] - 3.0, consts[1] + 3.0)] * 3
+        else:
+            doms = [doms[0]] * 4
+            spectator = {'first': 0, 'last': 3, 'middle': 2}[consts[1]]
+            doms[spectator] = (-1100.0, -900.0)
     xs = []
     for k, (lo, hi) in enumerate(doms):
         m = 0.02 * (hi - lo)
@@ -522,11 +600,16 @@ def run_special(ctx, idx, rng):
     variant = VARIANTS[(idx + j) % len(VARIANTS)]
     sp = PE.special
     f = getattr(sp, name)
-    if name == 'logsumexp':
+    nargs = len(doms)
+    shared = (idx // 2) % 2 == 0 and (name, consts, nargs) in FUNCS
+    if shared:
+        libcall = FUNCS[(name, consts, nargs)]          # the function object of an earlier case of this process, with other observables
+        ctx.count('function_object_reused')
+    elif name == 'logsumexp':
         import autograd.numpy as anp
 
         def libcall(v, **kw):
-            return f(anp.array([v[0], v[1], v[2]]))
+            return f(anp.array([v[i] for i in range(nargs)]))
     elif len(doms) == 2:
         def libcall(v, **kw):
             return f(v[0], v[1])
@@ -536,13 +619,20 @@ def run_special(ctx, idx, rng):
     else:
         def libcall(v, **kw):
             return f(*(tuple(consts) + (v[0],)))
-    same = len(doms) > 1 and j % 5 == 4
+    FUNCS.setdefault((name, consts, nargs), libcall)
+    same = len(doms) > 1 and j % 5 == 4 and spectator is None
     if same:
         variant = 'same-object-in-all-slots'
         ctx.count('same_object_in_all_slots')
     args, ins, vals = build_args(rng, xs, doms, variant if not same else 'one-chain', wf=[2e-3, 1e-9, 2e-3, 2e-2][j % 4], same_object=same)
-    res, ref, grads = apply_and_judge(ctx, name, consts, args, ins, vals, vtol, dtol, libcall, 'special:' + name, variant)
+    res, ref, grads = apply_and_judge(ctx, name, () if name == 'logsumexp' else consts, args, ins, vals, vtol, dtol, libcall, 'special:' + name, variant,
+                                      zero_gradient_slots=() if spectator is None else (spectator,), again=(j % 4 == 1))
     ctx.count('special_applications')
+    if spectator is not None and res is not None:
+        ctx.count('spectator_arguments')
+        ctx.require(grads[spectator] == 0.0, 'special:logsumexp:reference-spectator-gradient-not-zero', lambda: {'gradient': grads})
+    if name == 'logsumexp' and consts and consts[0] == 'args':
+        ctx.count('applications_with_more_than_10_arguments' if consts[1] < 100 else 'applications_with_more_than_100_arguments')
     if res is None:
         return
     if j == 0 and len(consts) == 0:
